@@ -1304,7 +1304,14 @@ fn check_logic_variable_operands(
         Exp::UnOp(op, inner) => (vec![&**inner], matches!(op, UnOp::Not)),
     };
     for operand in operands {
-        if let (true, Exp::Variable(name)) = (is_logic, operand) {
+        // (an operand that is a variable once it is simplified - `x + 0`, `1 * x` -
+        // is that variable)
+        let simplified = if is_logic && !matches!(operand, Exp::Variable(_)) {
+            Some(operand.clone().normal_form())
+        } else {
+            None
+        };
+        if let (true, Exp::Variable(name)) = (is_logic, simplified.as_ref().unwrap_or(operand)) {
             let declared = domain.get(name).map(|variable| variable.get_type());
             if matches!(declared, Some(kind) if !matches!(kind, VariableType::Boolean)) {
                 return Err(LinearizationError::NonBinaryLogicOperand(Box::new(
